@@ -27,6 +27,18 @@ CLAIMED = {
              "all prefixes of encodings, mutations, random bytes.",
         design="6/C16", technique="Coq proof (induction on input length; additive prefix law) + differential execution; pointer-range assertions in harness",
         note="usize assumed 64-bit; zero-copy and shared/mutable agreement are tested, not proved."),
+    "C17": dict(
+        text="Proof: RecordHeader, the BeginRequest/EndRequest/UnknownType bodies and their whole-record encoders, the automatic padding rule, "
+             "ExitStatus->EndRequest, make_request_epilogue and ProtocolVariables::write_response (with usize->decimal) are modelled in Gallina over "
+             "tables regenerated from the source; 19 theorems for all field values: round trips, exact decode domain (version checked first), "
+             "decode-then-encode identity up to reserved bytes, minimal padding < 8 making the body a multiple of 8, GetValuesResult = one "
+             "well-formed management record <= RESPONSE_LEN whose body decodes to exactly the requested variables in declaration order with the "
+             "decimal connection limit (any limit < 2^64, any subset), exit-status map, epilogue shape, and equality of the regenerated constants "
+             "with a hand transcription of the FastCGI specification. Tie: differential execution incl. all (version,type) pairs, all 65536 "
+             "padding inputs/roles in thorough, all flag/status bytes, all variable subsets x decimal-length boundaries, and a `consts` case "
+             "comparing the regenerated tables with the compiled crate.",
+        design="6/C17", technique="Coq proof (arithmetic on be16/be32, decimal induction, table lemmas) + differential execution with field-exhaustive sweeps",
+        note="make_request_epilogue is crate-private: its theorem is tied to the code through the connection-level check (C07). bitflags iter_names order modelled."),
 }
 
 PENDING = {}
